@@ -33,6 +33,8 @@ def jobs(tier):
             js.append({'name': 'tree %s%s inputs=%s' % (mode, '->' + second if second else '', ','.join(inputs)), 'harness': (H, 'h_tree'),
                        'params': {'mode': mode, 'inputs': inputs, 'recursive': True, 'second_mode': second, 'with_bad_temp': inputs == ['.']},
                        'max_steps': 6_000_000})
+    from . import project
+    js += project.jobs('C10', tier)
     return js
 
 
